@@ -537,3 +537,139 @@ def selftest():
 
 
 selftest()
+
+
+class MDCPDP:
+    """Multi-depot capacitated pickup and delivery. Nodes: depots 0..D-1, pickups D..D+h-1, deliveries D+h..D+2h-1
+    (pickup p pairs with p+h). A depot action while idle sends out the vehicle of that depot; a depot action on tour
+    returns the vehicle. Constraints: every customer exactly once; a delivery after its pickup and on the same vehicle;
+    number of carried orders <= capacity of that vehicle's depot; a vehicle comes home to its own depot, empty; each
+    depot's vehicle is used at most once."""
+
+    name = "mdcpdp"
+
+    @staticmethod
+    def extract(td_in, td0, b, env):
+        cap = [int(x) for x in td0["capacity"][b].reshape(-1).tolist()]
+        D = env.generator.num_depot
+        return dict(locs=td0["locs"][b].tolist(), D=D, cap=cap, w=float(td0["lateness_weight"][b].reshape(-1)[0]),
+                    reward_mode=env.reward_mode, problem_mode=env.problem_mode, dist_mode=env.dist_mode)
+
+    @staticmethod
+    def d(inst, a, b):
+        if inst["dist_mode"] == "L1":
+            return abs(a[0] - b[0]) + abs(a[1] - b[1])
+        return math.hypot(a[0] - b[0], a[1] - b[1])
+
+    @classmethod
+    def tours(cls, inst, actions):
+        """-> list of (depot, [customers], returned_to or None), structural problems"""
+        D = inst["D"]
+        tours, probs = [], []
+        cur = None
+        for a in actions:
+            if a < D:
+                if cur is not None and cur[1]:
+                    cur[2] = a
+                    tours.append(tuple(cur))
+                    cur = None
+                else:
+                    if cur is not None and not cur[1]:
+                        # idle hop from one depot to another: the previous vehicle never left
+                        pass
+                    cur = [a, [], None]
+            else:
+                if cur is None:
+                    probs.append(("customer_without_vehicle", "violated", f"customer {a} visited while no vehicle is on tour"))
+                    cur = [None, [], None]
+                cur[1].append(a)
+        if cur is not None and cur[1]:
+            tours.append(tuple(cur))
+        return tours, probs
+
+    @classmethod
+    def violations(cls, inst, actions):
+        D, n = inst["D"], len(inst["locs"]) - inst["D"]
+        h = n // 2
+        tours, out = cls.tours(inst, actions)
+        cust = [a for a in actions if a >= D]
+        cnt = {}
+        for c in cust:
+            cnt[c] = cnt.get(c, 0) + 1
+        if any(k > 1 for k in cnt.values()):
+            out.append(("visit_once", "violated", f"customers visited twice: {[c for c,k in cnt.items() if k>1]}"))
+        miss = [c for c in range(D, D + n) if c not in cnt]
+        if miss:
+            out.append(("visit_all", "violated", f"customers never visited: {miss}"))
+        used = {}
+        for dep, cs, ret in tours:
+            if dep is not None:
+                used[dep] = used.get(dep, 0) + 1
+            if ret is not None and dep is not None and ret != dep and inst["problem_mode"] == "close":
+                out.append(("route_ends_at_own_depot", "violated", f"vehicle of depot {dep} returns to depot {ret}"))
+            pos = {c: i for i, c in enumerate(cs)}
+            carry = 0
+            cap = inst["cap"][dep] if dep is not None and dep < len(inst["cap"]) else inst["cap"][0]
+            for c in cs:
+                if c < D + h:
+                    carry += 1
+                    if carry > cap:
+                        out.append(("capacity", "violated", f"vehicle of depot {dep} carries {carry} orders > capacity {cap}"))
+                        break
+                    if c + h not in pos:
+                        out.append(("same_vehicle", "violated", f"pickup {c} and delivery {c+h} on different vehicles"))
+                else:
+                    if c - h in pos and pos[c - h] > pos[c]:
+                        out.append(("precedence", "violated", f"delivery {c} before pickup {c-h}"))
+                    elif c - h not in pos:
+                        out.append(("precedence", "violated", f"delivery {c} on a vehicle that never picked up {c-h}"))
+                    carry -= 1
+        if any(k > 1 for k in used.values()):
+            out.append(("depot_reused", "violated", f"depots sending out more than one vehicle: {[d for d,k in used.items() if k>1]}"))
+        return out
+
+    @classmethod
+    def objective(cls, inst, actions):
+        locs, D = inst["locs"], inst["D"]
+        n = len(locs) - D
+        h = n // 2
+        tours, _ = cls.tours(inst, actions)
+        lens, late = {}, 0.0
+        for dep, cs, ret in tours:
+            dd = dep if dep is not None else 0
+            L, cur = 0.0, locs[dd]
+            for c in cs:
+                L += cls.d(inst, cur, locs[c])
+                cur = locs[c]
+                if c >= D + h:
+                    late += L
+            if inst["problem_mode"] == "close":
+                L += cls.d(inst, cur, locs[dd])
+            lens[dd] = lens.get(dd, 0.0) + L
+        vals = list(lens.values()) or [0.0]
+        if inst["reward_mode"] == "minmax":
+            return -max(vals)
+        if inst["reward_mode"] == "minsum":
+            return -math.fsum(vals)
+        return -((1 - inst["w"]) * math.fsum(vals) + inst["w"] * late)
+
+    @staticmethod
+    def step_bound(inst):
+        return len(inst["locs"]) - inst["D"] + 2 * inst["D"] + 1
+
+
+def _selftest_mdcpdp():
+    locs = [[0, 0], [4, 0], [1, 0], [5, 0], [2, 0], [6, 0]]  # D=2, pickups 2,3 deliveries 4,5
+    inst = dict(locs=locs, D=2, cap=[1, 1], w=0.5, reward_mode="minsum", problem_mode="close", dist_mode="L2")
+    assert not MDCPDP.violations(inst, [0, 2, 4, 0, 1, 3, 5, 1])
+    assert abs(MDCPDP.objective(inst, [0, 2, 4, 0, 1, 3, 5]) + (4 + 4)) < 1e-12
+    assert any(v[0] == "route_ends_at_own_depot" for v in MDCPDP.violations(inst, [0, 2, 4, 0, 1, 3, 5, 0]))
+    assert any(v[0] == "capacity" for v in MDCPDP.violations(inst, [0, 2, 3, 4, 5]))
+    assert any(v[0] == "precedence" for v in MDCPDP.violations(inst, [0, 4, 2, 0, 1, 3, 5]))
+    inst["reward_mode"] = "minmax"
+    assert abs(MDCPDP.objective(inst, [0, 2, 4, 0, 1, 3, 5]) + 4) < 1e-12
+    inst["reward_mode"] = "lateness"
+    assert abs(MDCPDP.objective(inst, [0, 2, 4, 0, 1, 3, 5]) + (0.5 * 8 + 0.5 * (2 + 2))) < 1e-12
+
+
+_selftest_mdcpdp()
